@@ -103,7 +103,7 @@ def eval_case(ctx, case):
         elif final != declared:
             ctx.fail('final-size' if expect == 'declared' else 'no-structure-stays-0', detail_case,
                      {'got': final, 'declared': declared, 'format': spec['gen'], 'schedule': klass})
-    if case.get('wrapper') and expect == 'declared':
+    if case.get('wrapper') and expect == 'declared' and ig.sigs(data) <= {name}:
         klass, cuts = case['schedules'][-1]
         res = sl.feed_wrapper(data, cuts, monitor=False)
         ctx.clause('wrapper-final-size')
